@@ -7,81 +7,81 @@ open ImathVerif
 
 /-- extracted from the C++ template at T = Sym; 2 path(s) -/
 def Plane3.setPoints {α : Type} [Add α] [Sub α] [Mul α] [Div α] [Neg α] [LT α] [LE α] [DecidableLT α] [DecidableLE α] [DecidableEq α] [OfNat α 0] [OfNat α 2] (tmin : α) (tmax : α) (sqrt : α → α) (p1 : V3 α) (p2 : V3 α) (p3 : V3 α) : (Plane3 α) :=
-  let t734 := (p3.z - p1.z)
-  let t735 := (p3.y - p1.y)
-  let t736 := (p3.x - p1.x)
-  let t737 := (p2.z - p1.z)
-  let t738 := (p2.y - p1.y)
-  let t739 := (p2.x - p1.x)
-  let t742 := ((t739 * t735) - (t738 * t736))
-  let t745 := ((t737 * t736) - (t739 * t734))
-  let t748 := ((t738 * t734) - (t737 * t735))
-  let t749 := (V3.length tmin tmax sqrt ⟨t748, t745, t742⟩)
-  let t755 := (t748 / t749)
-  let t756 := (t745 / t749)
-  let t757 := (t742 / t749)
-  if t749 = (0 : α) then
-    ⟨⟨t748, t745, t742⟩, (((t748 * p1.x) + (t745 * p1.y)) + (t742 * p1.z))⟩
+  let t812 := (p3.z - p1.z)
+  let t813 := (p3.y - p1.y)
+  let t814 := (p3.x - p1.x)
+  let t815 := (p2.z - p1.z)
+  let t816 := (p2.y - p1.y)
+  let t817 := (p2.x - p1.x)
+  let t820 := ((t817 * t813) - (t816 * t814))
+  let t823 := ((t815 * t814) - (t817 * t812))
+  let t826 := ((t816 * t812) - (t815 * t813))
+  let t827 := (V3.length tmin tmax sqrt ⟨t826, t823, t820⟩)
+  let t833 := (t826 / t827)
+  let t834 := (t823 / t827)
+  let t835 := (t820 / t827)
+  if t827 = (0 : α) then
+    ⟨⟨t826, t823, t820⟩, (((t826 * p1.x) + (t823 * p1.y)) + (t820 * p1.z))⟩
   else
-    ⟨⟨t755, t756, t757⟩, (((t755 * p1.x) + (t756 * p1.y)) + (t757 * p1.z))⟩
+    ⟨⟨t833, t834, t835⟩, (((t833 * p1.x) + (t834 * p1.y)) + (t835 * p1.z))⟩
 
 /-- extracted from the C++ template at T = Sym; 2 path(s) -/
 def Plane3.setPointNormal {α : Type} [Add α] [Mul α] [Div α] [Neg α] [LT α] [LE α] [DecidableLT α] [DecidableLE α] [DecidableEq α] [OfNat α 0] [OfNat α 2] (tmin : α) (tmax : α) (sqrt : α → α) (point : V3 α) (n : V3 α) : (Plane3 α) :=
-  let t769 := (V3.length tmin tmax sqrt ⟨n.x, n.y, n.z⟩)
-  let t775 := (n.x / t769)
-  let t776 := (n.y / t769)
-  let t777 := (n.z / t769)
-  if t769 = (0 : α) then
+  let t847 := (V3.length tmin tmax sqrt ⟨n.x, n.y, n.z⟩)
+  let t853 := (n.x / t847)
+  let t854 := (n.y / t847)
+  let t855 := (n.z / t847)
+  if t847 = (0 : α) then
     ⟨⟨n.x, n.y, n.z⟩, (((n.x * point.x) + (n.y * point.y)) + (n.z * point.z))⟩
   else
-    ⟨⟨t775, t776, t777⟩, (((t775 * point.x) + (t776 * point.y)) + (t777 * point.z))⟩
+    ⟨⟨t853, t854, t855⟩, (((t853 * point.x) + (t854 * point.y)) + (t855 * point.z))⟩
 
 /-- extracted from the C++ template at T = Sym; 2 path(s) -/
 def Plane3.setNormalDistance {α : Type} [Add α] [Mul α] [Div α] [Neg α] [LT α] [LE α] [DecidableLT α] [DecidableLE α] [DecidableEq α] [OfNat α 0] [OfNat α 2] (tmin : α) (tmax : α) (sqrt : α → α) (n : V3 α) (d : α) : (Plane3 α) :=
-  let t769 := (V3.length tmin tmax sqrt ⟨n.x, n.y, n.z⟩)
-  if t769 = (0 : α) then
+  let t847 := (V3.length tmin tmax sqrt ⟨n.x, n.y, n.z⟩)
+  if t847 = (0 : α) then
     ⟨⟨n.x, n.y, n.z⟩, d⟩
   else
-    ⟨⟨(n.x / t769), (n.y / t769), (n.z / t769)⟩, d⟩
+    ⟨⟨(n.x / t847), (n.y / t847), (n.z / t847)⟩, d⟩
 
 /-- extracted from the C++ template at T = Sym; 2 path(s) -/
 def Plane3.ctorPoints {α : Type} [Add α] [Sub α] [Mul α] [Div α] [Neg α] [LT α] [LE α] [DecidableLT α] [DecidableLE α] [DecidableEq α] [OfNat α 0] [OfNat α 2] (tmin : α) (tmax : α) (sqrt : α → α) (p1 : V3 α) (p2 : V3 α) (p3 : V3 α) : (Plane3 α) :=
-  let t734 := (p3.z - p1.z)
-  let t735 := (p3.y - p1.y)
-  let t736 := (p3.x - p1.x)
-  let t737 := (p2.z - p1.z)
-  let t738 := (p2.y - p1.y)
-  let t739 := (p2.x - p1.x)
-  let t742 := ((t739 * t735) - (t738 * t736))
-  let t745 := ((t737 * t736) - (t739 * t734))
-  let t748 := ((t738 * t734) - (t737 * t735))
-  let t749 := (V3.length tmin tmax sqrt ⟨t748, t745, t742⟩)
-  let t755 := (t748 / t749)
-  let t756 := (t745 / t749)
-  let t757 := (t742 / t749)
-  if t749 = (0 : α) then
-    ⟨⟨t748, t745, t742⟩, (((t748 * p1.x) + (t745 * p1.y)) + (t742 * p1.z))⟩
+  let t812 := (p3.z - p1.z)
+  let t813 := (p3.y - p1.y)
+  let t814 := (p3.x - p1.x)
+  let t815 := (p2.z - p1.z)
+  let t816 := (p2.y - p1.y)
+  let t817 := (p2.x - p1.x)
+  let t820 := ((t817 * t813) - (t816 * t814))
+  let t823 := ((t815 * t814) - (t817 * t812))
+  let t826 := ((t816 * t812) - (t815 * t813))
+  let t827 := (V3.length tmin tmax sqrt ⟨t826, t823, t820⟩)
+  let t833 := (t826 / t827)
+  let t834 := (t823 / t827)
+  let t835 := (t820 / t827)
+  if t827 = (0 : α) then
+    ⟨⟨t826, t823, t820⟩, (((t826 * p1.x) + (t823 * p1.y)) + (t820 * p1.z))⟩
   else
-    ⟨⟨t755, t756, t757⟩, (((t755 * p1.x) + (t756 * p1.y)) + (t757 * p1.z))⟩
+    ⟨⟨t833, t834, t835⟩, (((t833 * p1.x) + (t834 * p1.y)) + (t835 * p1.z))⟩
 
 /-- extracted from the C++ template at T = Sym; 2 path(s) -/
 def Plane3.ctorPointNormal {α : Type} [Add α] [Mul α] [Div α] [Neg α] [LT α] [LE α] [DecidableLT α] [DecidableLE α] [DecidableEq α] [OfNat α 0] [OfNat α 2] (tmin : α) (tmax : α) (sqrt : α → α) (point : V3 α) (n : V3 α) : (Plane3 α) :=
-  let t769 := (V3.length tmin tmax sqrt ⟨n.x, n.y, n.z⟩)
-  let t775 := (n.x / t769)
-  let t776 := (n.y / t769)
-  let t777 := (n.z / t769)
-  if t769 = (0 : α) then
+  let t847 := (V3.length tmin tmax sqrt ⟨n.x, n.y, n.z⟩)
+  let t853 := (n.x / t847)
+  let t854 := (n.y / t847)
+  let t855 := (n.z / t847)
+  if t847 = (0 : α) then
     ⟨⟨n.x, n.y, n.z⟩, (((n.x * point.x) + (n.y * point.y)) + (n.z * point.z))⟩
   else
-    ⟨⟨t775, t776, t777⟩, (((t775 * point.x) + (t776 * point.y)) + (t777 * point.z))⟩
+    ⟨⟨t853, t854, t855⟩, (((t853 * point.x) + (t854 * point.y)) + (t855 * point.z))⟩
 
 /-- extracted from the C++ template at T = Sym; 2 path(s) -/
 def Plane3.ctorNormalDistance {α : Type} [Add α] [Mul α] [Div α] [Neg α] [LT α] [LE α] [DecidableLT α] [DecidableLE α] [DecidableEq α] [OfNat α 0] [OfNat α 2] (tmin : α) (tmax : α) (sqrt : α → α) (n : V3 α) (d : α) : (Plane3 α) :=
-  let t769 := (V3.length tmin tmax sqrt ⟨n.x, n.y, n.z⟩)
-  if t769 = (0 : α) then
+  let t847 := (V3.length tmin tmax sqrt ⟨n.x, n.y, n.z⟩)
+  if t847 = (0 : α) then
     ⟨⟨n.x, n.y, n.z⟩, d⟩
   else
-    ⟨⟨(n.x / t769), (n.y / t769), (n.z / t769)⟩, d⟩
+    ⟨⟨(n.x / t847), (n.y / t847), (n.z / t847)⟩, d⟩
 
 /-- extracted from the C++ template at T = Sym; 1 path(s) -/
 def Plane3.distanceTo {α : Type} [Add α] [Sub α] [Mul α] (pl : Plane3 α) (p : V3 α) : α :=
@@ -89,41 +89,41 @@ def Plane3.distanceTo {α : Type} [Add α] [Sub α] [Mul α] (pl : Plane3 α) (p
 
 /-- extracted from the C++ template at T = Sym; 1 path(s) -/
 def Plane3.reflectPoint {α : Type} [Add α] [Sub α] [Mul α] [Neg α] [OfNat α 2] (pl : Plane3 α) (p : V3 α) : (V3 α) :=
-  let t793 := ((((p.x * pl.normal.x) + (p.y * pl.normal.y)) + (p.z * pl.normal.z)) - pl.distance)
-  ⟨(((pl.normal.x * t793) * (-(2 : α))) + p.x), (((pl.normal.y * t793) * (-(2 : α))) + p.y), (((pl.normal.z * t793) * (-(2 : α))) + p.z)⟩
+  let t871 := ((((p.x * pl.normal.x) + (p.y * pl.normal.y)) + (p.z * pl.normal.z)) - pl.distance)
+  ⟨(((pl.normal.x * t871) * (-(2 : α))) + p.x), (((pl.normal.y * t871) * (-(2 : α))) + p.y), (((pl.normal.z * t871) * (-(2 : α))) + p.z)⟩
 
 /-- extracted from the C++ template at T = Sym; 1 path(s) -/
 def Plane3.reflectVector {α : Type} [Add α] [Sub α] [Mul α] [OfNat α 2] (pl : Plane3 α) (v : V3 α) : (V3 α) :=
-  let t811 := (((pl.normal.x * v.x) + (pl.normal.y * v.y)) + (pl.normal.z * v.z))
-  ⟨(((pl.normal.x * t811) * (2 : α)) - v.x), (((pl.normal.y * t811) * (2 : α)) - v.y), (((pl.normal.z * t811) * (2 : α)) - v.z)⟩
+  let t889 := (((pl.normal.x * v.x) + (pl.normal.y * v.y)) + (pl.normal.z * v.z))
+  ⟨(((pl.normal.x * t889) * (2 : α)) - v.x), (((pl.normal.y * t889) * (2 : α)) - v.y), (((pl.normal.z * t889) * (2 : α)) - v.z)⟩
 
 /-- extracted from the C++ template at T = Sym; 2 path(s) -/
 def Plane3.intersect {α : Type} [Add α] [Sub α] [Mul α] [Div α] [Neg α] [DecidableEq α] [OfNat α 0] (pl : Plane3 α) (l : Line3 α) : (Bool × (V3 α)) :=
-  let t825 := (((pl.normal.x * l.dir.x) + (pl.normal.y * l.dir.y)) + (pl.normal.z * l.dir.z))
-  let t833 := ((-((((pl.normal.x * l.pos.x) + (pl.normal.y * l.pos.y)) + (pl.normal.z * l.pos.z)) - pl.distance)) / t825)
-  if t825 = (0 : α) then
+  let t903 := (((pl.normal.x * l.dir.x) + (pl.normal.y * l.dir.y)) + (pl.normal.z * l.dir.z))
+  let t911 := ((-((((pl.normal.x * l.pos.x) + (pl.normal.y * l.pos.y)) + (pl.normal.z * l.pos.z)) - pl.distance)) / t903)
+  if t903 = (0 : α) then
     (false, ⟨(0 : α), (0 : α), (0 : α)⟩)
   else
-    (true, ⟨(l.pos.x + (l.dir.x * t833)), (l.pos.y + (l.dir.y * t833)), (l.pos.z + (l.dir.z * t833))⟩)
+    (true, ⟨(l.pos.x + (l.dir.x * t911)), (l.pos.y + (l.dir.y * t911)), (l.pos.z + (l.dir.z * t911))⟩)
 
 /-- extracted from the C++ template at T = Sym; 2 path(s) -/
 def Plane3.intersectT {α : Type} [Add α] [Sub α] [Mul α] [Div α] [Neg α] [DecidableEq α] [OfNat α 0] (pl : Plane3 α) (l : Line3 α) : (Bool × α) :=
-  let t825 := (((pl.normal.x * l.dir.x) + (pl.normal.y * l.dir.y)) + (pl.normal.z * l.dir.z))
-  if t825 = (0 : α) then
+  let t903 := (((pl.normal.x * l.dir.x) + (pl.normal.y * l.dir.y)) + (pl.normal.z * l.dir.z))
+  if t903 = (0 : α) then
     (false, (0 : α))
   else
-    (true, ((-((((pl.normal.x * l.pos.x) + (pl.normal.y * l.pos.y)) + (pl.normal.z * l.pos.z)) - pl.distance)) / t825))
+    (true, ((-((((pl.normal.x * l.pos.x) + (pl.normal.y * l.pos.y)) + (pl.normal.z * l.pos.z)) - pl.distance)) / t903))
 
 /-- extracted from the C++ template at T = Sym; 2 path(s) -/
 def Plane3.neg {α : Type} [Add α] [Mul α] [Div α] [Neg α] [LT α] [LE α] [DecidableLT α] [DecidableLE α] [DecidableEq α] [OfNat α 0] [OfNat α 2] (tmin : α) (tmax : α) (sqrt : α → α) (pl : Plane3 α) : (Plane3 α) :=
-  let t840 := (-pl.distance)
-  let t841 := (-pl.normal.z)
-  let t842 := (-pl.normal.y)
-  let t843 := (-pl.normal.x)
-  let t844 := (V3.length tmin tmax sqrt ⟨t843, t842, t841⟩)
-  if t844 = (0 : α) then
-    ⟨⟨t843, t842, t841⟩, t840⟩
+  let t918 := (-pl.distance)
+  let t919 := (-pl.normal.z)
+  let t920 := (-pl.normal.y)
+  let t921 := (-pl.normal.x)
+  let t922 := (V3.length tmin tmax sqrt ⟨t921, t920, t919⟩)
+  if t922 = (0 : α) then
+    ⟨⟨t921, t920, t919⟩, t918⟩
   else
-    ⟨⟨(t843 / t844), (t842 / t844), (t841 / t844)⟩, t840⟩
+    ⟨⟨(t921 / t922), (t920 / t922), (t919 / t922)⟩, t918⟩
 
 end ImathVerif.Gen
